@@ -259,6 +259,24 @@ def run {B H σ : Type} (env : Env B H) (ops : SockOps σ) (attach : Message B H
         (m :: ms, e, cf, sf)
     | r => ([], r, o.codec, o.sock)
 
+/-! ## the `Attachment(left, ..)` state on its own -/
+
+/-- one `Codec::read` in state `Attachment(left, ..)`: the chunk length it announces
+(`next_len` = `min(left, 48_000)`) and the state after the chunk: `some left'` = `Attachment(left', ..)`,
+`none` = `*left == 0` ⇒ `self.state = None`, back to reading a message header -/
+def attStep (left : Nat) : Nat × Option Nat :=
+  (min left ATTACHMENT_CHUNK,
+   if left - min left ATTACHMENT_CHUNK = 0 then none else some (left - min left ATTACHMENT_CHUNK))
+
+/-- the chunk lengths of the updates delivered for an attachment of `left` bytes (an attachment of 0 bytes
+is one empty chunk) -/
+def attChunkLens : Nat → Nat → List Nat
+  | 0, _ => []
+  | f+1, left =>
+    (attStep left).1 :: (match (attStep left).2 with
+      | none => []
+      | some l => attChunkLens f l)
+
 /-! ## read timeouts (`Codec::set_stream_timeout`) and the codec over a stream with a clock -/
 
 /-- which variant of `enum State` (the generated `StateKind` lists the variants of the source) -/
